@@ -52,7 +52,13 @@ ReqWhy(k) ==
                  IF C.routes[i].kind = "dynbytes"
                  THEN (IF Len(C.conns[k]) # 0 THEN "C12 a request answered by the plugin itself caused an outbound connection" \o pos
                        ELSE "C12 the literal response of a dynamic route was not sent as is" \o pos)
-                 ELSE FwdWhy(k, C.routes[i].urls[1], req)
+                 ELSE \* report against the URL the observed connection points to, if any (random.choice picked it)
+                      LET us == C.routes[i].urls
+                          hit == {j \in 1..Len(us) : LET pu == ParseUrl(us[j])
+                                                         h == IF Len(C.conns[k]) = 1 THEN C.conns[k][1].host ELSE C.reused[k].host
+                                                         p == IF Len(C.conns[k]) = 1 THEN C.conns[k][1].port ELSE C.reused[k].port
+                                                     IN pu.ok /\ pu.host = h /\ pu.port = p}
+                      IN FwdWhy(k, us[IF hit = {} THEN 1 ELSE MinOf(hit)], req)
 Why == LET bad == {k \in 1..Len(C.reqs) : ReqWhy(k) # "ok"} IN IF bad = {} THEN "ok" ELSE ReqWhy(MinOf(bad))
 TInit == tid \in 1..Len(Cases) /\ verdict = ""
 TNext == verdict = "" /\ verdict' = Why /\ UNCHANGED tid
